@@ -554,7 +554,13 @@ func onlyReachableErr(fn *ssa.Function, e an.Edge) bool {
 	}
 	// enter the target block across the edge itself, so that the first block is threaded too
 	hit, _ := an.PathTo(fn, e.From.Instrs[len(e.From.Instrs)-1], isSuccess, an.NewGates().AddEdges(an.Edge{From: e.From, Succ: 1 - e.Succ}))
-	return hit == nil
+	if hit == nil {
+		return true
+	}
+	// the verdict may travel through a boolean merged from several tests (`_, taken := m[k]; if !taken { _, taken =
+	// seen[k] }; if taken {...}`): the path-sensitive explorer assumes the fact of the edge and follows the value
+	res := an.PathSens(an.PSQuery{Fn: fn, StartEdge: &e, Target: func(i ssa.Instruction, _ *an.PEnv) bool { return isSuccess(i) }})
+	return res.Found == nil && !res.Overflow
 }
 
 // ruleVisitExtract (X-visit-extract).
